@@ -717,7 +717,17 @@ func main() {
 		pairs := dryRun(self, dry, from, ph.to, ph.mode, ph.kind, dry+".trace")
 		os.RemoveAll(dry)
 		if len(pairs) < 10 {
-			ev.Broken("path-targeted kills: the dry run of %q lists only %d (file, syscall) pairs", ph.name, len(pairs))
+			// tracing went wrong - or the child cannot run this phase at all. The second is the code's fault
+			// and is reported by the kill families above; only the first is a harness error.
+			probe := newDir()
+			pfrom := ph.prepare(probe)
+			packs, _, _, praw := runChild(self, probe, pfrom, ph.to, ph.mode, ph.kind, 0)
+			os.RemoveAll(probe)
+			if packs == ph.to && strings.Contains(praw, "CLOSED") {
+				ev.Broken("path-targeted kills: the dry run of %q lists only %d (file, syscall) pairs", ph.name, len(pairs))
+			}
+			r.Violation("child did not run as scripted (store or open failed before the kill)", praw, scenario{Name: "path-targeted kills", Steps: []string{ph.name + " (untraced probe run)"}, Acked: packs})
+			continue
 		}
 		hh := history(ph.kind)
 		for pr, cnt := range pairs {
